@@ -140,12 +140,20 @@ func c17Wear(c *mc.Ctx) {
 	atomic.StoreInt32(&faulty, 1)
 	resurfaced := 0
 	for k := 0; k < count; k++ {
-		ctx, cf := context.WithCancel(context.Background())
-		cancel.Store(cf)
+		// (every call is given a deadline far beyond what it needs, so that one that waits for something that never comes is seen)
+		ctx, cf := context.WithTimeout(context.Background(), c17WearDeadline)
+		cancel.Store(context.CancelFunc(cf))
 		_, pan := call(ctx, v, cl)
+		expired := ctx.Err() == context.DeadlineExceeded
 		cf()
 		if pan != nil {
 			resurfaced++
+		}
+		if expired {
+			c.Statef("after %d faulty calls", k)
+			c.Outcome("faulty-call:still-busy-at-its-deadline")
+			c.Fail("C17 a call after earlier faulty calls does not come back", "call %d with fault %q through the same validator, client and fetcher was still busy when its context expired after %v (the %d calls before it came back at once)", k+1, fault, c17WearDeadline, k)
+			return
 		}
 	}
 	atomic.StoreInt32(&faulty, 0)
